@@ -48,48 +48,138 @@ func analyseWriter(p *pkgSrc, spec writerSpec) writerFact {
 		f.writes = 99 // unknown => non-compliant
 		return f
 	}
-	held := map[string]bool{}
-	deferred := map[*ast.CallExpr]bool{}
 	var lockAtWrite []string
-	ast.Inspect(fd.Body, func(n ast.Node) bool {
-		switch x := n.(type) {
-		case *ast.DeferStmt:
-			deferred[x.Call] = true
-		case *ast.FuncLit:
-			return false // a nested closure runs at another time
-		case *ast.CallExpr:
-			txt := p.text(x)
-			if sel, ok := x.Fun.(*ast.SelectorExpr); ok {
-				recv := p.text(sel.X)
-				switch sel.Sel.Name {
-				case "Lock", "RLock":
-					held[recv] = true
-				case "Unlock", "RUnlock":
-					if !deferred[x] {
-						delete(held, recv)
-					}
-				}
-			}
-			for _, pat := range spec.patterns {
-				if strings.HasPrefix(txt, pat) {
-					f.writes++
-					for _, m := range spec.multi {
-						if m == pat {
-							f.multi = true
-						}
-					}
-					var hs []string
-					for h := range held {
-						hs = append(hs, h)
-					}
-					sort.Strings(hs)
-					lockAtWrite = append(lockAtWrite, strings.Join(hs, "+"))
-					break
+	// block-aware walk: lock state is tracked per statement list; a branch that ends in return/continue/break/panic
+	// does not leak its Unlock into the code after the branch
+	var walkStmts func(list []ast.Stmt, held map[string]bool) map[string]bool
+	copyHeld := func(h map[string]bool) map[string]bool {
+		c := map[string]bool{}
+		for k, v := range h {
+			c[k] = v
+		}
+		return c
+	}
+	terminates := func(list []ast.Stmt) bool {
+		if len(list) == 0 {
+			return false
+		}
+		switch x := list[len(list)-1].(type) {
+		case *ast.ReturnStmt:
+			return true
+		case *ast.BranchStmt:
+			return true
+		case *ast.ExprStmt:
+			if c, ok := x.X.(*ast.CallExpr); ok {
+				if id, ok := c.Fun.(*ast.Ident); ok && id.Name == "panic" {
+					return true
 				}
 			}
 		}
-		return true
-	})
+		return false
+	}
+	var visitExpr func(n ast.Node, held map[string]bool, deferred bool)
+	visitExpr = func(n ast.Node, held map[string]bool, deferred bool) {
+		ast.Inspect(n, func(m ast.Node) bool {
+			switch x := m.(type) {
+			case *ast.FuncLit:
+				return false // a nested closure runs at another time
+			case *ast.CallExpr:
+				txt := p.text(x)
+				if sel, ok := x.Fun.(*ast.SelectorExpr); ok {
+					recv := p.text(sel.X)
+					switch sel.Sel.Name {
+					case "Lock", "RLock":
+						held[recv] = true
+					case "Unlock", "RUnlock":
+						if !deferred {
+							delete(held, recv)
+						}
+					}
+				}
+				for _, pat := range spec.patterns {
+					if strings.HasPrefix(txt, pat) {
+						f.writes++
+						for _, mm := range spec.multi {
+							if mm == pat {
+								f.multi = true
+							}
+						}
+						var hs []string
+						for h := range held {
+							hs = append(hs, h)
+						}
+						sort.Strings(hs)
+						lockAtWrite = append(lockAtWrite, strings.Join(hs, "+"))
+						break
+					}
+				}
+			}
+			return true
+		})
+	}
+	walkStmts = func(list []ast.Stmt, held map[string]bool) map[string]bool {
+		for _, st := range list {
+			switch x := st.(type) {
+			case *ast.DeferStmt:
+				visitExpr(x.Call, held, true)
+			case *ast.BlockStmt:
+				held = walkStmts(x.List, held)
+			case *ast.IfStmt:
+				if x.Init != nil {
+					held = walkStmts([]ast.Stmt{x.Init}, held)
+				}
+				visitExpr(x.Cond, held, false)
+				hb := walkStmts(x.Body.List, copyHeld(held))
+				var he map[string]bool
+				if x.Else != nil {
+					he = walkStmts([]ast.Stmt{x.Else}, copyHeld(held))
+				}
+				switch {
+				case terminates(x.Body.List) && x.Else == nil:
+					// fallthrough state = state before the branch
+				case x.Else == nil:
+					// intersection of "branch taken" and "not taken"
+					for k := range held {
+						if !hb[k] {
+							delete(held, k)
+						}
+					}
+				default:
+					for k := range held {
+						if !hb[k] || !he[k] {
+							delete(held, k)
+						}
+					}
+				}
+			case *ast.ForStmt:
+				walkStmts(x.Body.List, copyHeld(held))
+			case *ast.RangeStmt:
+				walkStmts(x.Body.List, copyHeld(held))
+			case *ast.SelectStmt:
+				for _, cc := range x.Body.List {
+					if c, ok := cc.(*ast.CommClause); ok {
+						walkStmts(c.Body, copyHeld(held))
+					}
+				}
+			case *ast.SwitchStmt:
+				for _, cc := range x.Body.List {
+					if c, ok := cc.(*ast.CaseClause); ok {
+						walkStmts(c.Body, copyHeld(held))
+					}
+				}
+			case *ast.TypeSwitchStmt:
+				for _, cc := range x.Body.List {
+					if c, ok := cc.(*ast.CaseClause); ok {
+						walkStmts(c.Body, copyHeld(held))
+					}
+				}
+			default:
+				visitExpr(st, held, false)
+			}
+		}
+		return held
+	}
+	walkStmts(fd.Body.List, map[string]bool{})
 	if f.writes == 0 {
 		f.writes = 99 // the writer changed shape: not recognised => non-compliant
 		return f
